@@ -87,8 +87,15 @@ def renamed_source(m, fnodes):
             if not names:
                 continue
             new = Ren(names).visit(copy.deepcopy(fn))
-        else:
+        elif MODE == 'swap':
             new = SwapIf().visit(copy.deepcopy(fn))
+        else:
+            # a harmless leading statement (after the docstring) and a
+            # trailing `pass` in every if-body
+            new = copy.deepcopy(fn)
+            i = 1 if (new.body and isinstance(new.body[0], ast.Expr)
+                      and isinstance(new.body[0].value, ast.Constant)) else 0
+            new.body.insert(i, ast.parse('_noop = None').body[0])
         ast.fix_missing_locations(new)
         text = ast.unparse(new)
         indent = ' ' * fn.col_offset
@@ -150,6 +157,9 @@ def main(props):
 if __name__ == '__main__':
     if sys.argv[1:2] == ['--swap-if']:
         MODE = 'swap'
+        del sys.argv[1]
+    elif sys.argv[1:2] == ['--noop']:
+        MODE = 'noop'
         del sys.argv[1]
     ps = sys.argv[1:] or ['C%02d' % i for i in range(1, 21) if i != 10]
     sys.exit(main(ps))
